@@ -52,7 +52,7 @@ def gen_cases(tier, seed):
                 cases.append(dict(kind="ctor", gen=gen, dim=dim, method="uniform", ns=ns, box=box,
                                   x64=x64, keys=keys, cost=len(ns) * len(keys) / 8))
         for dim, ns in ((2, [1, 4, 9, 16, 49, 100] if q else [k * k for k in range(1, 15)]),
-                        (3, [1, 8, 27] if q else [1, 8, 27, 64, 125])):
+                        (3, [1, 8, 27, 64, 125] if q else [1, 8, 27, 64, 125, 216, 1000])):
             for box in (BOXES[:2] if q else BOXES):
                 cases.append(dict(kind="ctor", gen="statio", dim=dim, method="grid", ns=ns, box=box,
                                   x64=x64, keys=keys[:1], cost=1.0))
